@@ -24,6 +24,7 @@ type c16Params struct {
 	API      string `json:"api"`      // readfrom | read
 	N        int    `json:"n"`        // records sent
 	Deliver  []int  `json:"deliver"`  // delivery sequence: index of sent record; negative: forged variant of record -(i+1)
+	SeqExp   int    `json:"seq_exp,omitempty"` // the sender's records start 3 below 2^SeqExp of the 48-bit sequence number (0: they start where the handshake left it)
 	ForgeHow []int  `json:"forge"`    // per negative entry (in order): 0 flip body byte, 1 flip tag/mac byte, 2 wrong epoch, 3 seq rewritten to a fresh number, 4 garbage with valid-looking header, 5 version, 6 length beyond the datagram, 7 length 0xffff, 8 datagram shorter than a record header, 9 content type
 	Boundary bool   `json:"boundary"` // delivery order built around the window edge
 }
@@ -31,7 +32,7 @@ type c16Params struct {
 func (c16) ID() string    { return "C16" }
 func (c16) Level() string { return "exploration" }
 func (c16) Rule() string {
-	return "after a clean handshake the sender emits N records with unique payloads; the simulated network holds them back and then delivers a seeded sequence: any order, duplicates, replays of much older records, gaps, and forgeries interleaved at any point (flipped ciphertext / tag byte, older / next / far epoch, rewritten sequence number, garbage behind a plausible header, changed version, length field beyond the datagram or 0xffff, datagram shorter than a header, changed content type); ReplayWindow 0 (default) and 32..160; GCM and CBC; receiver through ReadFrom and, separately, Read; some sequences are built around the window edge (newest-W, newest-W+1, ...). Oracle: set-based reference model - every delivered payload was sent, none twice, forgeries never delivered and without effect on later acceptance, and every genuine first arrival that is newer than all accepted or within max(32, min(configured,64)) behind the newest IS delivered. Each case also compares the window object (hook) with the same model on a seeded number sequence. distinct = distinct (parameters, delivery sequence); non-trivial = at least one duplicate or forgery was delivered to a live receiver"
+	return "after a clean handshake the sender emits N records with unique payloads; the simulated network holds them back and then delivers a seeded sequence: any order, duplicates, replays of much older records, gaps, and forgeries interleaved at any point (flipped ciphertext / tag byte, older / next / far epoch, rewritten sequence number, garbage behind a plausible header, changed version, length field beyond the datagram or 0xffff, datagram shorter than a header, changed content type); ReplayWindow 0 (default) and 32..160; GCM and CBC; receiver through ReadFrom, Read, or both in turn; the records may start just below 2^16, 2^24, 2^32, 2^40 or 2^47 of the 48-bit sequence number (hook VerifSetWriteSeq); some sequences are built around the window edge (newest-W, newest-W+1, ...). Oracle: set-based reference model - every delivered payload was sent, none twice, forgeries never delivered and without effect on later acceptance, and every genuine first arrival that is newer than all accepted or within max(32, min(configured,64)) behind the newest IS delivered. Each case also compares the window object (hook) with the same model on a seeded number sequence. distinct = distinct (parameters, delivery sequence); non-trivial = at least one duplicate or forgery was delivered to a live receiver"
 }
 func (c16) Components() (real, stub []string) {
 	return []string{"dtlcp client+server (instrumented): record authentication, epoch handling, replay window, ReadFrom and Read paths"},
@@ -55,7 +56,8 @@ func drawC16(src *vs.Src) *c16Params {
 	p.Suite = pickU16(src, []uint16{ECC_GCM, ECC_CBC})
 	p.Window = pickInt(src, []int{0, 0, 32, 33, 48, 63, 64, 65, 96, 128, 160})
 	p.Sender = src.Intn(2)
-	p.API = pickStr(src, []string{"readfrom", "readfrom", "read"})
+	p.API = pickStr(src, []string{"readfrom", "readfrom", "read", "mixed"})
+	p.SeqExp = pickInt(src, []int{0, 0, 0, 16, 24, 32, 40, 47})
 	p.Boundary = src.Bool(1, 2)
 	if p.Boundary {
 		p.N = 70 + src.Intn(110)
@@ -178,6 +180,9 @@ func (c16) Run(c *Case, src *vs.Src) *Result {
 		handshook++
 		vs.Block(func() bool { return handshook == 2 }, time.Time{})
 		holding = true
+		if p.SeqExp > 0 {
+			dtlcp.VerifSetWriteSeq(sender, 1<<uint(p.SeqExp)-3)
+		}
 		for i := 0; i < p.N; i++ {
 			if _, err := sender.WriteTo(c16Payload(i), sender.RemoteAddr()); err != nil {
 				sErr = err
@@ -223,7 +228,7 @@ func (c16) Run(c *Case, src *vs.Src) *Result {
 			receiver.SetReadDeadline(vs.Now().Add(2 * time.Second))
 			var n int
 			var err error
-			if p.API == "readfrom" {
+			if p.API == "readfrom" || (p.API == "mixed" && len(got)%2 == 0) {
 				n, _, err = receiver.ReadFrom(buf)
 			} else {
 				n, err = receiver.Read(buf)
